@@ -67,6 +67,7 @@ func (t *TcpConn) SendPacket(pkt fatchoy.IPacket) error {
 	if !t.IsRunning() {
 		return ErrConnIsClosing
 	}
+	t.verifPoint("send.checked")
 	select {
 	case t.outbound <- pkt:
 		return nil
@@ -80,12 +81,17 @@ func (t *TcpConn) Close() error {
 		// log.Errorf("TcpConn: connection %v is already closed", t.node)
 		return nil
 	}
+	t.verifPoint("close.cas")
 	if tconn, ok := t.conn.(*net.TCPConn); ok {
 		tconn.CloseRead()
 	}
+	t.verifPoint("close.readclosed")
 	close(t.done)
+	t.verifPoint("close.doneclosed")
 	t.notifyErr(NewError(ErrConnForceClose, t))
+	t.verifPoint("close.notified")
 	t.finally() // 阻塞等待投递剩余的消息
+	t.verifPoint("close.return")
 	return nil
 }
 
@@ -94,39 +100,51 @@ func (t *TcpConn) ForceClose(err error) {
 		// log.Errorf("TcpConn: connection %v is already closed", t.node)
 		return
 	}
+	t.verifPoint("fclose.cas")
 	if tconn, ok := t.conn.(*net.TCPConn); ok {
 		tconn.CloseRead()
 	}
+	t.verifPoint("fclose.readclosed")
 	close(t.done)
+	t.verifPoint("fclose.doneclosed")
 	t.notifyErr(NewError(err, t))
+	t.verifPoint("fclose.notified")
 	go t.finally() // 不阻塞等待
+	t.verifPoint("fclose.return")
 }
 
 func (t *TcpConn) finally() {
 	t.wg.Wait()
+	t.verifPoint("finally.waited")
 	if tconn, ok := t.conn.(*net.TCPConn); ok {
 		tconn.CloseWrite()
 	} else {
 		t.conn.Close()
 	}
+	t.verifPoint("finally.closewrite")
 	t.state.Set(fatchoy.StateTerminated)
 	close(t.outbound)
+	t.verifPoint("finally.teardown")
 	t.outbound = nil
 	t.inbound = nil
 	t.errChan = nil
 	t.conn = nil
+	t.verifPoint("finally.done")
 }
 
 func (t *TcpConn) flush() {
+	t.verifPoint("flush.begin")
 	for i := 0; i < len(t.outbound); i++ {
 		select {
 		case pkt, ok := <-t.outbound:
 			if !ok {
 				break
 			}
+			t.verifPoint("flush.deq")
 			if err := t.write(pkt); err != nil {
 				log.Errorf("%v marshal message %v: %v", t.node, pkt.Command(), err)
 			}
+			t.verifPoint("flush.wrote")
 
 		default:
 			return
@@ -144,13 +162,16 @@ func (t *TcpConn) write(pkt fatchoy.IPacket) error {
 	}
 	t.stats.Add(StatPacketsSent, 1)
 	t.stats.Add(StatBytesSent, int64(nbytes))
+	t.verifPoint("write.counted")
 	return nil
 }
 
 func (t *TcpConn) writePump() {
 	defer func() {
 		t.flush()
+		t.verifPoint("writer.flushed")
 		t.wg.Done()
+		t.verifPoint("writer.exit")
 		log.Debugf("TcpConn: node %v writer stopped", t.node)
 	}()
 
@@ -162,11 +183,14 @@ func (t *TcpConn) writePump() {
 			if !ok {
 				return
 			}
+			t.verifPoint("writer.deq")
 			if err := t.write(pkt); err != nil {
 				log.Errorf("%v write message %v: %v", t.node, pkt.Command(), err)
 			}
+			t.verifPoint("writer.wrote")
 
 		case <-t.done:
+			t.verifPoint("writer.sawdone")
 			return
 		}
 	}
@@ -193,6 +217,7 @@ func (t *TcpConn) readPacket() (fatchoy.IPacket, error) {
 func (t *TcpConn) readPump() {
 	defer func() {
 		t.wg.Done()
+		t.verifPoint("reader.exit")
 		log.Debugf("TcpConn: node %v reader stopped", t.node)
 	}()
 
@@ -200,13 +225,16 @@ func (t *TcpConn) readPump() {
 	for {
 		pkt, err := t.readPacket()
 		if err != nil {
+			t.verifPoint("reader.err")
 			if err != io.EOF {
 				log.Errorf("%v read packet %v", t.node, err)
 			}
 			t.ForceClose(err) // I/O超时或者发生错误，强制关闭连接
 			return
 		}
+		t.verifPoint("reader.frame")
 		t.inbound <- pkt // 如果channel满了，这里会阻塞
+		t.verifPoint("reader.delivered")
 
 		// test if we should exit
 		if t.testShouldExit() {
